@@ -32,6 +32,43 @@ func runC11(src sim.Source, o Opts) *Result {
 	if !rr.build() {
 		return res
 	}
+	if src.Intn("emptyrouter", 4) == 3 && len(rr.pool) > 0 && rr.w.R.Len() == 0 {
+		// before anything is registered: a write transaction registers routes, looks requests up through itself (those
+		// contexts go back to the pool of the still empty published tree) and is aborted; the empty router then answers
+		// requests - no route serves them, whatever the recycled contexts last held
+		res.inc("runs_starting_with_requests_on_the_empty_router")
+		txn := rr.w.R.Txn(true)
+		for k, n := 0, 1+src.Intn("emptytxnroutes", 3); k < n; k++ {
+			pat := rr.pool[src.Intn("emptytxnpat", len(rr.pool))]
+			if _, err := txn.Handle("GET", pat.Raw, world.Handler(0), world.FoxOpts(0, world.RouteOpt{TS: 1})...); err != nil {
+				continue
+			}
+			host, path := world.Instantiate(src, pat)
+			for _, pth := range []string{path, strings.TrimSuffix(path, "/"), path + "/"} {
+				if pth == "" {
+					continue
+				}
+				if rt, cc, _ := txn.Lookup(world.NewRW(world.NewConn()), world.NewRequest("GET", host, pth, "", "", nil)); rt != nil {
+					cc.Close()
+				}
+			}
+		}
+		txn.Abort()
+		for i := 0; i < 3 && !res.failed(); i++ {
+			// (served straight away: a lookup of the harness' own in between would use - and reset - the recycled context)
+			p := world.GenProbe(src, rr.pool, rr.f.methods)
+			if p.Path == "*" {
+				continue
+			}
+			res.Checks++
+			obs := rr.w.Serve(p, "", "", nil)
+			if obs.Panic != nil {
+				res.fail("C11/panic", "on the empty router: ServeHTTP %v panicked: %v", p, obs.Panic)
+			} else if obs.Kind != model.KNoRoute || obs.Hit.HasRoute || obs.Hit.Pattern != "" || len(obs.Hit.Params) > 0 || obs.Hit.Scope != fox.NoRouteHandler {
+				res.fail("C11/context", "on the empty router, after lookups through an aborted transaction: %s %s%s answered by %s, the handler saw route=%v pattern=%q params=%v scope=%d (want the no-route handler without route, pattern or parameters)", p.Method, p.Host, p.Path, obs.Kind, obs.Hit.HasRoute, obs.Hit.Pattern, obs.Hit.Params, obs.Hit.Scope)
+			}
+		}
+	}
 	rounds := 2 + src.Intn("rounds", 3)
 	var probeKeys []string
 	for r := 0; r < rounds && !res.failed(); r++ {
@@ -240,6 +277,15 @@ func (rr *routingRun) checkUnserved(p world.Probe, rawPath, where string) {
 		res.fail("C11/panic", "%s: ServeHTTP %v panicked: %v", where, p, obs.Panic)
 		return
 	}
+	// the answer given to the previous unserved request is its own: whatever this request did, the header the earlier
+	// connection holds (a server writes it out after the handler returned) is still what it was
+	if rr.prevConn != nil {
+		if now := strings.Join(rr.prevConn.H.Values("Allow"), " | "); now != rr.prevAllow {
+			res.fail("C11/allow", "%s: the Allow header of the previous response (%s) was %q and reads %q after this request was answered", where, rr.prevWhat, rr.prevAllow, now)
+			return
+		}
+	}
+	rr.prevConn, rr.prevAllow, rr.prevWhat = obs.Conn, strings.Join(obs.Conn.H.Values("Allow"), " | "), fmt.Sprintf("%s %s%s", p.Method, p.Host, p.Path)
 	describe := func() string {
 		var rs []string
 		for _, r := range rr.set.Routes() {
